@@ -66,13 +66,70 @@ def const_value(node, default=None):
 # --------------------------------------------------------------------------- records
 
 
+class Canon(ast.NodeTransformer):
+    """Canonical form applied to every module before analysis, so that behaviour-preserving
+    re-spellings give the SAME tree (and therefore the same verdict):
+      * comparisons:  b > a  ->  a < b ;  b >= a  ->  a <= b ;  for == != is is-not a constant goes to the
+        right, otherwise the operands are ordered by their text;
+      * x = x + y / x = x - y  (same target text)  ->  x += y / x -= y ;
+      * if not c: A else: B  ->  if c: B else: A   (same for conditional expressions)."""
+
+    FLIP = {ast.Gt: ast.Lt, ast.GtE: ast.LtE}
+    SYMM = (ast.Eq, ast.NotEq, ast.Is, ast.IsNot)
+
+    @staticmethod
+    def _has_walrus(e):
+        return any(isinstance(x, ast.NamedExpr) for x in ast.walk(e))
+
+    def visit_Compare(self, n):
+        self.generic_visit(n)
+        if len(n.ops) != 1 or self._has_walrus(n):
+            return n
+        op, l, r = n.ops[0], n.left, n.comparators[0]
+        if type(op) in self.FLIP:
+            new = ast.Compare(left=r, ops=[self.FLIP[type(op)]()], comparators=[l])
+            return ast.copy_location(new, n)
+        if isinstance(op, self.SYMM):
+            def is_const(e):
+                return isinstance(e, ast.Constant) or (isinstance(e, ast.UnaryOp) and isinstance(e.op, ast.USub) and isinstance(e.operand, ast.Constant))
+
+            lc, rc = is_const(l), is_const(r)
+            swap = (lc and not rc) or (not lc and not rc and unparse(l) > unparse(r))
+            if swap:
+                new = ast.Compare(left=r, ops=[op], comparators=[l])
+                return ast.copy_location(new, n)
+        return n
+
+    def visit_Assign(self, n):
+        self.generic_visit(n)
+        if len(n.targets) == 1 and isinstance(n.targets[0], ast.Name | ast.Attribute | ast.Subscript) and isinstance(n.value, ast.BinOp) and isinstance(n.value.op, ast.Add | ast.Sub | ast.Mult | ast.BitOr):
+            if unparse(n.value.left) == unparse(n.targets[0]):
+                new = ast.AugAssign(target=n.targets[0], op=n.value.op, value=n.value.right)
+                return ast.copy_location(new, n)
+        return n
+
+    def visit_If(self, n):
+        self.generic_visit(n)
+        if n.orelse and isinstance(n.test, ast.UnaryOp) and isinstance(n.test.op, ast.Not) and not self._has_walrus(n.test):
+            new = ast.If(test=n.test.operand, body=n.orelse, orelse=n.body)
+            return ast.copy_location(new, n)
+        return n
+
+    def visit_IfExp(self, n):
+        self.generic_visit(n)
+        if isinstance(n.test, ast.UnaryOp) and isinstance(n.test.op, ast.Not):
+            new = ast.IfExp(test=n.test.operand, body=n.orelse, orelse=n.body)
+            return ast.copy_location(new, n)
+        return n
+
+
 class Module:
     def __init__(self, name, path, relpath, source):
         self.name = name
         self.path = path
         self.relpath = relpath
         self.source = source
-        self.tree = ast.parse(source, filename=str(path))
+        self.tree = ast.fix_missing_locations(Canon().visit(ast.parse(source, filename=str(path))))
         self.imports: dict[str, str] = {}
         self.functions: dict[str, Func] = {}
         self.classes: dict[str, Class] = {}
